@@ -113,7 +113,7 @@ def run(tier, seed):
     rnd = random.Random(seed)
     chk.machine_family("assert-histories", scenarios(), features=features)
     n = 1200 if tier == "quick" else 15000
-    rs = [gen.random_scenario(rnd, {"db", "dyn", "ctl"}, nclauses=3, depth=rnd.choice([2, 3])) for _ in range(n)]
+    rs = [gen.random_scenario(rnd, {"db", "dyn", "ctl", "rich"}, nclauses=3, depth=rnd.choice([2, 3])) for _ in range(n)]
     for i in range(0, n, 4000):
         chk.machine_family("random-db-%d" % (i // 4000), rs[i:i + 4000], features=features)
     need = ["DoAssertz", "DoAsserta", "DoCallFacts"]
